@@ -459,16 +459,33 @@ class World:
                 res = obj(*acc[1])
             # consume generator / coroutine results so the body runs
             # (generators: the first item, then an early close — the clean-up code of the body runs inside close())
+            # (every other access: an exception is thrown in at the first item instead — it is raised at the `yield`, the clean-up code runs, and
+            # the very exception comes back to the caller)
+            throw_in = acc[0] == 'call' and len(acc[1]) % 2 == 1
             if inspect.isgenerator(res):
                 g = res
                 res = [next(g)]
-                g.close()
+                if throw_in:
+                    try:
+                        g.throw(ValueError('thrown in'))
+                        res.append('nothing came back')
+                    except (ValueError, StopIteration) as e:
+                        res.append('%s came back' % type(e).__name__)
+                else:
+                    g.close()
             elif inspect.iscoroutine(res):
                 res = drive_awaitable(res)
             elif inspect.isasyncgen(res):
                 g = res
                 res = [drive_awaitable(g.asend(None))]
-                drive_awaitable(g.aclose())
+                if throw_in:
+                    try:
+                        drive_awaitable(g.athrow(ValueError('thrown in')))
+                        res.append('nothing came back')
+                    except (ValueError, StopAsyncIteration) as e:
+                        res.append('%s came back' % type(e).__name__)
+                else:
+                    drive_awaitable(g.aclose())
         except (AttributeError, TypeError) as e:
             evs = ['run:%d:%s:%d' % (f, ','.join(map(str, a)), d) for (f, a, d) in self.log]
             return evs + ['err'], 'EXC ' + type(e).__name__
